@@ -26,6 +26,7 @@ Fails(t) ==
       lo  == KBest(t, kk, LAMBDA i, c : CertAdmitted(t, i, c))       \* over the tags that are certainly admitted
       got == [i \in 1..Len(t.trees) |-> t.trees[i].score]
   IN   If(\A i \in 2..Len(t.prios) : t.prios[i] <= t.prios[i - 1], "C01.pop_priority_increased")
+  \cup If(t.npops <= t.maxstep, "C01.step_budget_exceeded")
   \cup (IF t.failed
         THEN    If(Len(lo) = 0 \/ Exhausted(t), "C01.failed_but_derivation_exists")
            \cup If(Len(lo) = 0 \/ Exhausted(t), "C16.failed_although_a_derivation_over_admitted_tags_exists")
